@@ -18,7 +18,9 @@ DB_COMPONENTS = dict(
 
 CLASS_PROPERTY = {
     "snapshot_inconsistent": "C04",
+    "unstable_in_epoch": "C06",
     "hang": None,
+    "stuck": None,
     "panic": None,
     "half_published": "C05",
     "panic_swallowed": "C05",
@@ -140,7 +142,24 @@ PROPS["C05"] = dict(
     assumptions=COMMON_ASSUME + ["cancellation = dropping the future at a Pending poll; a panic is injected in harness executors only"],
 )
 
-HOOK_COMMITS = ["06b6edb", "0ffc033", "d5f7b95"]
+PROPS["C06"] = dict(
+    bin="engine_sim", packages=["engine_sim"], args=["--prop", "C06"],
+    quick_s=60, thorough_s=600, level="exploration", also=["C01"],
+    rule=("digraphs of 2-7 normal nodes over 1-2 input flags with self-loops, nested / adjacent SCCs and edges "
+          "conditional on the flags; sequential requests on arbitrary roots, sessions flipping flags, and (1/3 of "
+          "the runs) concurrent request phases under preempt hooks. Oracle: executable model 'depth-first "
+          "evaluation in read order; a read closing a cycle onto the stack makes every node from the target to "
+          "the top a member; members stop at that read and take their declared default; everything else "
+          "evaluates normally', memoised per epoch in request order. Epochs in which that model is request-order "
+          "dependent (checked by evaluating with every node as first root), and concurrent phases, compare only "
+          "nodes with a cycle-free reachable subgraph plus stability within the epoch. Termination by the "
+          "quiescence detector; no panic other than the engine's own cycle payload. non-trivial = an epoch with "
+          "a cycle reachable from a requested root that was compared strictly; distinct = hash(program, history)"),
+    components=ENGINE_COMPONENTS,
+    assumptions=COMMON_ASSUME + ["cycle defaults are per query type (the executor API has no per-key default)"],
+)
+
+HOOK_COMMITS = ["06b6edb", "0ffc033", "d5f7b95", "752f4f3"]
 
 NOT_BUILT = "check not built yet (work in progress in this session; see DESIGN.md section 8 for the order of construction)"
 NOT_APPLICABLE = {
@@ -148,11 +167,19 @@ NOT_APPLICABLE = {
             "clock, fault, I/O or interleaving for the property to depend on and no seam to own; pairwise distinctness "
             "over a type universe is enumeration, a different technique (DESIGN.md section 5)"),
 }
-for _p in ["C06", "C09", "C10", "C11", "C12", "C13", "C15", "C16"]:
+for _p in [ "C09", "C10", "C11", "C12", "C13", "C15", "C16"]:
     if _p not in PROPS:
         NOT_APPLICABLE[_p] = NOT_BUILT
 
 MANIFEST_TEXT = {
+    "C06": dict(
+        text=("Seeded exploration of small cyclic dependency graphs, roots, histories and (for a third of the "
+              "runs) task interleavings, against an executable depth-first-with-defaults model; termination is "
+              "decided by the quiescence detector."),
+        design_ref="DESIGN.md section 4 C06",
+        note="trusted: the DFS-with-defaults model (it is only allowed to demand what the property states; order-dependent epochs are excluded from strict comparison)",
+        technique="deterministic simulation with an executable reference model for cycle semantics",
+    ),
     "C02": dict(
         text=("Seeded exploration of task interleavings: concurrent requests run as separate tasks of one "
               "deterministic runtime; the controller injects yields at preempt/await hooks inside the engine "
